@@ -312,6 +312,10 @@ def make_lazy(ctx, rng, nd=None, matrix=False):
             x = gen.rand_matrix(sr, rng, sym, True, values=vals, square=True, sparsity=rng.choice([0.0, 0.3]), nphase=0, maxd=3)
         else:
             x = gen.rand_matrix(sr, rng, sym, True, values=vals, sparsity=rng.choice([0.0, 0.3]), nphase=0, maxd=3)
+    elif nd is None and rng.random() < 0.1:
+        # one stored element: rank 0..3 with every axis of size one (array / array is defined)
+        idx = [sr.BlockIndex({rng.choice(gen.POOL[sym]): 1}, dual=rng.random() < 0.5) for _ in range(rng.randint(0, 3))]
+        x = gen.make_array(sr, rng, sym, idx, fermionic=True, values=vals, sparsity=0.0, nphase=0, label=rng.randint(1, 99))
     else:
         x = gen.rand_array(sr, rng, sym, ndim=nd, fermionic=True, maxnd=4, values=vals, maxd=2, nphase=0)
     # reach a sign table through public ops only
